@@ -243,7 +243,7 @@ Loop:
 		case "F>": // Prompt (end of proposal block)
 			// Verify checksum
 			ourChecksum = (-ourChecksum) & 0xff
-			their, _ := strconv.ParseInt(line[3:], 16, 64)
+			their, _ := strconv.ParseInt(strings.TrimSpace(line[2:]), 16, 64)
 			if their != ourChecksum {
 				err = errors.New(fmt.Sprintf(`Checksum error (%d-%d)`, ourChecksum, their))
 				return
